@@ -1149,7 +1149,7 @@ func ruleAncRestore(w *World, r *Report) {
 			}
 			return false
 		}
-		h, _ := reach(m, nil, func(in ssa.Instruction) bool { return isSuccessReturn(in, nil) }, barrier, nil)
+		h, _ := reach(m, nil, func(in ssa.Instruction) bool { return isSuccessReturn(in, nil) && isSuccessReturnPS(in) }, barrier, nil)
 		if h == nil {
 			memo[m] = 1
 			return true, nil
@@ -2928,11 +2928,20 @@ func ruleRemStoreFirst(prop string) ruleFn {
 			if ff == "" {
 				continue
 			}
+			_, deleters := factMapHelpers(w, a, owner)
 			for _, fn := range w.MethodsOf(n) {
+				if _, isHelper := deleters[fn]; isHelper {
+					continue
+				}
 				var dels, stos []ssa.Instruction
 				allInstrs(fn, func(in ssa.Instruction) {
 					if c, ok := isBuiltinCall(in, "delete"); ok && len(c.Call.Args) == 2 && isFieldLoad(c.Call.Args[0], owner, ff) {
 						dels = append(dels, in)
+					}
+					if c := callOf(in); c != nil && c.StaticCallee() != nil {
+						if _, isHelper := deleters[c.StaticCallee()]; isHelper {
+							dels = append(dels, in) // `drop(id)`: forgets for its caller
+						}
 					}
 					if d, ok := isStorageMutation(w, in); ok && strings.HasSuffix(d, "Remove") {
 						stos = append(stos, in)
@@ -6101,8 +6110,56 @@ func ruleCtxEntry(w *World, r *Report) {
 				bad = w.PosOf(sc)
 			}
 		}
-		// also: some SetLoc is executed on every path (it dominates every return)
+		// also: some SetLoc is executed on every path (it dominates every return) — in the method itself or in a method
+		// of the same location that it calls and that does so on all its paths (the walk over the ancestors ends with
+		// the location itself: ANC-SELF-LAST, ANC-RESTORE)
+		var repoints func(f *ssa.Function, depth int) bool
+		repoints = func(f *ssa.Function, depth int) bool {
+			if f == nil || len(f.Blocks) == 0 || len(f.Params) == 0 || depth > 3 || namedOf(f.Params[0].Type()) != a.Location {
+				return false
+			}
+			if f.Name() == "DoAncestors" || f.Name() == "doAncestors" {
+				return true
+			}
+			frecv := ssa.Value(f.Params[0])
+			var marks []ssa.Instruction
+			allInstrs(f, func(x ssa.Instruction) {
+				c := callOf(x)
+				if c == nil || c.StaticCallee() == nil {
+					return
+				}
+				if _, isDefer := x.(*ssa.Defer); isDefer {
+					return
+				}
+				if c.StaticCallee() == setLoc && len(c.Args) == 2 && valueIs(c.Args[1], frecv) {
+					marks = append(marks, x)
+				} else if len(c.Args) > 0 && valueIs(c.Args[0], frecv) && c.StaticCallee() != f && repoints(c.StaticCallee(), depth+1) {
+					marks = append(marks, x)
+				}
+			})
+			all := len(marks) > 0
+			allInstrs(f, func(x ssa.Instruction) {
+				if _, ok := x.(*ssa.Return); !ok {
+					return
+				}
+				dom := false
+				for _, mk := range marks {
+					if instrDominates(mk, x) {
+						dom = true
+					}
+				}
+				if !dom {
+					all = false
+				}
+			})
+			return all
+		}
 		if bad == "" {
+			allInstrs(m, func(in ssa.Instruction) {
+				if c := callOf(in); c != nil && c.StaticCallee() != nil && c.StaticCallee() != m && len(c.Args) > 0 && valueIs(c.Args[0], recv) && repoints(c.StaticCallee(), 0) {
+					sets = append(sets, in)
+				}
+			})
 			allInstrs(m, func(in ssa.Instruction) {
 				if _, ok := in.(*ssa.Return); !ok {
 					return
